@@ -156,8 +156,13 @@ fn cases_for(fx: &Fixture, dbi: usize, db: &Db, thorough: bool) -> Vec<Case> {
     // ---- absent exact points
     for (k, r) in db.imm.iter().enumerate() {
         let (s, h) = (fx.slot(*r), fx.hash(*r));
-        // quick: the three hash-shape variants only on every 16th block and both ends
-        let all_variants = thorough || k % 16 == 0 || k + 1 == n;
+        // quick: absent points around every 4th block (and both ends of every chunk); the
+        // three hash-shape variants only on every 16th block and both ends
+        let edge = k == 0 || k + 1 == n || db.imm[k - 1].chunk != r.chunk || db.imm[k + 1].chunk != r.chunk;
+        if !(thorough || k % 4 == 0 || edge) {
+            continue;
+        }
+        let all_variants = thorough || k % 16 == 0 || edge;
         let mut flipped = h;
         flipped[0] ^= 1;
         v.push(Case { db: dbi, kind: Kind::Absent, slot: s, hash: flipped.to_vec(), how: "right slot, hash with one bit flipped" });
@@ -182,8 +187,13 @@ fn cases_for(fx: &Fixture, dbi: usize, db: &Db, thorough: bool) -> Vec<Case> {
     }
     // ---- fuzzy points
     let mut fuzzy: BTreeSet<u64> = BTreeSet::new();
-    for s in &slots {
-        fuzzy.extend([s - 1, *s, s + 1]);
+    for (k, s) in slots.iter().enumerate() {
+        // quick: in the three-chunk database (whose two immutable chunks are also read in the
+        // two-chunk databases) only around every 4th block and both ends of every chunk
+        let edge = k == 0 || k + 1 == n || db.imm[k - 1].chunk != db.imm[k].chunk || db.imm[k + 1].chunk != db.imm[k].chunk;
+        if thorough || db.names.len() < 3 || k % 4 == 0 || edge {
+            fuzzy.extend([s - 1, *s, s + 1]);
+        }
     }
     // chunk boundaries of every chunk of the DB (incl. the last one)
     for name in &db.names {
@@ -425,8 +435,8 @@ pub fn run(ctx: Ctx) -> ! {
         "distinct_expected_outcomes" => distinct_expected.len(),
         "fuzzy_points_answered_from_a_later_chunk" => cross_chunk_fuzzy,
         "diagnostic_fuzzy_points_outside_block_range" => diag_outside,
-        "absent_points" => if ctx.thorough { "per block: flipped hash bit, slot+1, slot-1, another block's hash, 31-byte hash, 33-byte hash; every block of the last chunk" } else { "per block: flipped hash bit, slot+1, slot-1; on every 16th block and both ends also another block's hash, 31-byte hash, 33-byte hash; every 16th block of the last chunk" },
-        "fuzzy_stride" => if ctx.thorough { "every slot of the epochs of the immutable chunks + every block slot +-1, midpoints, chunk boundaries" } else { "every block slot +-1, chunk boundaries +-1" },
+        "absent_points" => if ctx.thorough { "per block: flipped hash bit, slot+1, slot-1, another block's hash, 31-byte hash, 33-byte hash; every block of the last chunk" } else { "on every 4th block and both ends of each chunk: flipped hash bit, slot+1, slot-1; on every 16th block and the ends also another block's hash, 31-byte hash, 33-byte hash; every 16th block of the last chunk" },
+        "fuzzy_stride" => if ctx.thorough { "every slot of the epochs of the immutable chunks + every block slot +-1, midpoints, chunk boundaries" } else { "two-chunk databases: every block slot +-1; three-chunk database: every 4th block slot +-1 and both ends of each chunk; chunk boundaries +-1" },
     };
     ctx.finish(
         Level::Exploration,
